@@ -262,6 +262,8 @@ def execute(cs, acts, base):
             done.append({"op": a["op"], "c": a["c"], "src": a.get("src", ""),
                          "fault": injected if (injected and out == "fault") else "",
                          "note": "swallowed" if (injected and out == "ok") else ("" if injected or not a.get("plan") else "not-injected")})
+            if done[-1]["note"] == "not-injected":
+                done[-1]["plan"], done[-1]["phase_ops"] = a["plan"], [o for o in Phase.ops if o[2] != "built"][-4:] + [len(Phase.ops), out]
             if out.startswith("error:"):
                 break
         return done, obs, rw.graph
